@@ -45,6 +45,7 @@ type Options struct {
 	Callbacks   bool // use the custom Ranger / Renderer values (user callbacks that can fail)
 	MultiLine   bool // actions may contain newlines (whitespace inside an action is free)
 	TargetTry   bool // place exactly one instrumented try statement (C13); probes only inside its body
+	Big         bool // sizes and counts beyond ordinary small examples: long texts, many declarations, deep nesting, many parameters
 	CatchForm   int  // 0: no catch, 1: catch without variable, 2: catch with variable, 3: with variable and a return statement in the catch body
 }
 
@@ -55,7 +56,7 @@ func SwarmOptions(t *sim.Tape) Options {
 		Probes: true, ProbeExpr: on(2, 3),
 		Try: on(3, 4), Blocks: on(3, 4), Include: on(2, 3), Exec: on(1, 3), Extends: on(1, 2), Import: on(1, 2),
 		Range: on(4, 5), If: on(3, 4), Vars: on(3, 4), Dump: on(1, 4), Trim: on(1, 4), Comments: on(1, 4),
-		MaxStmts: t.Range(2, 6), MaxDepth: t.Range(1, 4), MapRange: on(1, 3), StateProbes: on(2, 3), MultiLine: on(1, 2), Callbacks: on(1, 2), Builtins: on(1, 2),
+		MaxStmts: t.Range(2, 6), MaxDepth: t.Range(1, 4), MapRange: on(1, 3), StateProbes: on(2, 3), MultiLine: on(1, 2), Callbacks: on(1, 2), Builtins: on(1, 2), Big: on(1, 6),
 	}
 }
 
@@ -180,6 +181,11 @@ func (g *G) text() {
 		s = "\n" + s + "\n\t"
 	case 4:
 		s += "<&>"
+	}
+	if g.O.Big && g.T.Choose(6) == 0 {
+		// a long literal text: beyond 512 bytes, beyond 4 KiB, rarely beyond 64 KiB
+		n := []int{600, 600, 5000, 5000, 5000, 70000}[g.T.Choose(6)]
+		s += "[big" + strings.Repeat("z", n) + "]"
 	}
 	g.emit(s)
 }
@@ -341,7 +347,9 @@ func (g *G) stmt(sc *scopeInfo) {
 		w(sc.canRet, 1),                             // 15 return
 		w(o.Dump, 1),                                // 16 dump
 		w(o.TargetTry && !g.targetPlaced && sc.inTry == 0 && !sc.canRet && sc.depth > 0, 3), // 17 the instrumented try
-		w(o.Callbacks && !o.TargetTry, 1), // 18 a function that declares a template-global through the Runtime API
+		w(o.Callbacks && !o.TargetTry, 1),   // 18 a function that declares a template-global through the Runtime API
+		w(o.Big && o.Vars, 1),               // 19 many declarations in one list
+		w(o.Big && o.If && g.budget > 0, 1), // 20 a deep chain of nested statements (beyond MaxDepth)
 	)
 	switch k {
 	case 0:
@@ -454,6 +462,40 @@ func (g *G) stmt(sc *scopeInfo) {
 		g.act("dump(9)")
 	case 17:
 		g.targetTry(*sc)
+	case 19:
+		n := g.T.Range(10, 24)
+		var last string
+		for i := 0; i < n; i++ {
+			last = g.newVar()
+			g.act(last + " := " + g.strExpr(*sc, 2))
+			sc.vars = append(sc.vars, last)
+		}
+		g.act(last)
+		g.act(sc.vars[len(sc.vars)-n])
+	case 20:
+		n := g.T.Range(6, 12)
+		in := *sc
+		for i := 0; i < n; i++ {
+			switch k := g.T.Choose(3); {
+			case k == 1 && o.Try:
+				in = in.child("try")
+				in.inTry++
+				g.act("try")
+			case k == 2 && o.Vars:
+				in = in.child("if-let")
+				v := g.newVar()
+				g.act("if " + v + ` := "d"; true`)
+				in.vars = append(in.vars, v)
+			default:
+				in = in.child("if")
+				g.act("if true")
+			}
+		}
+		in.depth = o.MaxDepth + 1 // nothing nests further below the chain
+		g.list(in, 2)
+		for i := 0; i < n; i++ {
+			g.act("end")
+		}
 	case 18:
 		g.nVar++
 		name := fmt.Sprintf("zq%d", g.nVar)
@@ -574,6 +616,9 @@ func (g *G) blockDef(sc scopeInfo) {
 	name := fmt.Sprintf("b%s%d", fileTag(g.f.path), g.nBlk)
 	bi := BlockInfo{Name: name, File: g.f.path}
 	np := g.T.Choose(3)
+	if g.O.Big && g.T.Choose(3) == 0 {
+		np = g.T.Range(5, 12)
+	}
 	hdr := "block " + name + "("
 	for i := 0; i < np; i++ {
 		p := fmt.Sprintf("p%d", i)
